@@ -115,6 +115,14 @@ func (b *Buffer) GetBlob() (ociregistry.Descriptor, []byte, error) {
 	return b.desc, b.buf, nil
 }
 
+// setCheckStartOffset registers the offset at which the next write
+// is expected to start; -1 means "don't check".
+func (b *Buffer) setCheckStartOffset(offset int64) {
+	b.mu.Lock()
+	defer b.mu.Unlock()
+	b.checkStartOffset = offset
+}
+
 // Write implements io.Writer by writing some data to the blob.
 func (b *Buffer) Write(data []byte) (int, error) {
 	b.mu.Lock()
@@ -148,7 +156,8 @@ func (b *Buffer) ID() string {
 // Commit implements [ociregistry.BlobWriter.Commit] by checking
 // that everything looks OK and calling the commit function if so.
 func (b *Buffer) Commit(dig ociregistry.Digest) (_ ociregistry.Descriptor, err error) {
-	if err := b.checkCommit(dig); err != nil {
+	desc, err := b.checkCommit(dig)
+	if err != nil {
 		return ociregistry.Descriptor{}, err
 	}
 	// Note: we're careful to call this function outside of the mutex so
@@ -160,18 +169,14 @@ func (b *Buffer) Commit(dig ociregistry.Digest) (_ ociregistry.Descriptor, err e
 		b.commitErr = err
 		return ociregistry.Descriptor{}, err
 	}
-	return ociregistry.Descriptor{
-		MediaType: "application/octet-stream",
-		Size:      int64(len(b.buf)),
-		Digest:    dig,
-	}, nil
+	return desc, nil
 }
 
-func (b *Buffer) checkCommit(dig ociregistry.Digest) (err error) {
+func (b *Buffer) checkCommit(dig ociregistry.Digest) (_ ociregistry.Descriptor, err error) {
 	b.mu.Lock()
 	defer b.mu.Unlock()
 	if b.commitErr != nil {
-		return b.commitErr
+		return ociregistry.Descriptor{}, b.commitErr
 	}
 	defer func() {
 		if err != nil {
@@ -179,7 +184,7 @@ func (b *Buffer) checkCommit(dig ociregistry.Digest) (err error) {
 		}
 	}()
 	if digest.FromBytes(b.buf) != dig {
-		return fmt.Errorf("digest mismatch (sha256(%q) != %s): %w", b.buf, dig, ociregistry.ErrDigestInvalid)
+		return ociregistry.Descriptor{}, fmt.Errorf("digest mismatch (sha256(%q) != %s): %w", b.buf, dig, ociregistry.ErrDigestInvalid)
 	}
 	b.desc = ociregistry.Descriptor{
 		MediaType: "application/octet-stream",
@@ -187,5 +192,5 @@ func (b *Buffer) checkCommit(dig ociregistry.Digest) (err error) {
 		Size:      int64(len(b.buf)),
 	}
 	b.committed = true
-	return nil
+	return b.desc, nil
 }
